@@ -113,6 +113,12 @@ CHECKS["C11"] = dict(
    text="16 scenarios (VP8 / H.264 x RTX negotiated or not x first sequence number and timestamp origin small or just before the wrap; frames of 1-8 packets, the 15-bit VP8 picture id wrapping inside the run) x all executions with <= k deviations (quick 1-2, thorough 2-3): drop / duplicate / reorder on the media and the feedback path, frame or timer first. Safety at every point: every buffer handed to the decoder is byte-identical to a sent frame (a tail only first or after a PLI), in sending order with consistent mapped timestamps, NACK <= 128 numbers, no task dies. Recovery (faults on first transmissions only, feedback and retransmissions get through, three more frames follow): every lost packet is NACKed and resent (as RTX iff negotiated), every frame reaches the decoder exactly once.",
    note="SRTP replaced by identity sessions; decoder thread replaced by a no-op and tapped at the decoder queue; packets sent before the first one the receiver ever sees are exempt (no gap is visible for them).",
    design="2/C11")
+CHECKS["C05"] = dict(
+   level="model_checking",
+   technique="bounded-exhaustive enumeration of structure-aware input families (all short strings; every truncation, single-bit flip and boundary-byte replacement of seed packets with checksum/tag re-sealed; boundary products of every length/count/offset field) delivered to the real entry points in a set of protocol states reached by scripted prefixes, under a CPU watchdog",
+   text="6.6 million datagrams (quick): 10 wire parsers (value or ValueError only); RTCSctpTransport._handle_data in 7 protocol states (before INIT, COOKIE-WAIT, COOKIE-ECHOED, established idle / data outstanding / reassembling / reset pending) with mutations of 17 live packets and boundary products for chunk and parameter lengths, SACK gap blocks, TSNs around the live association, stream ids, PPIDs, DCEP lengths and invalid UTF-8, FORWARD TSN lists and bundled INIT; RTCDtlsTransport._handle_rtp_data/_handle_rtcp_data with a live receiver and sender behind the real router (extension id x length products, RTX payload sizes, descriptor truncations, RTCP count/length products, REMB counts); the empty datagram. Oracle: no exception out of the entry point, 0.5 s CPU watchdog, bounded container growth, rejected packets leave the association state unchanged, association only ended by ABORT/SHUTDOWN, valid traffic still flows afterwards.",
+   note="All byte strings up to MTU cannot be enumerated: the claim is exactly the listed families. After packets that are valid for the live association and consume sequence space the follow-up exchange is not demanded (they ARE the peer as far as the protocol can tell).",
+   design="2/C05")
 NOT_YET = {}
 
 def main():
